@@ -84,6 +84,17 @@ package node
 //@   ensures result == PH(p)
 //@   note for a nil pointer the hash of the empty string
 
+//@ func Pointer.IsClean
+//@   props C02 C03 C04
+//@   modifies nothing
+//@   ensures result == (p == nil || p.Clean)
+
+//@ func Pointer.SetDirty
+//@   props C02 C03
+//@   ensures !p.Clean
+//@   ensures p.Node == old(p.Node) && p.Hash == old(p.Hash)
+//@   note a pointer marked dirty is what makes doCommit recompute the hash of the node below it; the database-private position is dropped with it
+
 //@ func InternalNode.UpdateHash
 //@   props C04 C02
 //@   requires n != nil
